@@ -19,6 +19,8 @@ SUITES = {
     "PARSE-NS": parse_suite("nsseg", 3, 5),
     "PARSE-SUB": parse_suite("subseg", 3, 5),
     "PARSE-QUALS2": parse_suite("quals2", 4, 6),
+    "PARSE-UPKEYS": parse_suite("upkeys", 2, 3),
+    "PARSE-UPTYPE": parse_suite("uptype", 2, 3),
 }
 
 FORMAT_INVS = ["C09_BuildOk", "C03_Render", "C09_ParseBack", "C04_Valid", "Emit"]
@@ -172,7 +174,7 @@ DRIVERS = {
                          describe="random call sequences on live Checksum values in several processes (fresh RandomState each)"),
 }
 
-PARSE_ALL = ["PARSE-SEP", "PARSE-PATH", "PARSE-QUAL", "PARSE-TYPED", "PARSE-NS", "PARSE-SUB", "PARSE-QUALS2", "SPELL", "FAULT"]
+PARSE_ALL = ["PARSE-SEP", "PARSE-PATH", "PARSE-QUAL", "PARSE-TYPED", "PARSE-NS", "PARSE-SUB", "PARSE-QUALS2", "PARSE-UPKEYS", "PARSE-UPTYPE", "SPELL", "FAULT"]
 BUILD_ALL = ["BUILDER-G", "BUILDER-T", "BUILDER-SIM-G", "BUILDER-SIM-T", "BUILDER-SEQ"]
 PROPS = {
     "C01": dict(suites=PARSE_ALL + ["FORMAT-1", "TYPES-NAMES", "SYSTEM-G", "SYSTEM-T"], drivers=["garbage", "corpus"]),
@@ -189,12 +191,12 @@ PROPS = {
     "C12": dict(suites=["CHECKSUM", "BUILDER-G", "PARSE-QUAL", "SPELL"], drivers=["checksum-ops", "corpus"]),
     "C13": dict(suites=["TYPES-STR", "PARSE-SEP", "PARSE-PATH", "SPELL", "BUILDER-G", "BUILDER-SIM-G", "FORMAT-1"], drivers=["garbage", "corpus", "builder-ops"]),
     "C14": dict(suites=["SHAPES"], drivers=[]),
-    "C15": dict(suites=["TYPES-LOOKUP", "PARSE-TYPED"], drivers=["type-strings"]),
+    "C15": dict(suites=["TYPES-LOOKUP", "PARSE-TYPED", "FAULT", "PARSE-UPTYPE"], drivers=["type-strings"]),
     "C16": dict(suites=["PARSE-SEP", "PARSE-PATH", "PARSE-QUAL", "PARSE-TYPED", "SPELL", "FAULT", "FORMAT-1", "FORMAT-2", "BUILDER-G", "BUILDER-T", "TYPES-LOOKUP"], drivers=["garbage", "corpus"]),
     "C17": dict(suites=[], drivers=[], extra="c17",
                 assumptions=["feature sets are compile-time: the harness is compiled once per set; TLC supplies the common case stream and validates the zipped transcripts, it does not enumerate configurations"]),
     "C18": dict(suites=["TYPES-COMB"], drivers=["combined", "corpus", "garbage"]),
-    "C19": dict(suites=["VALUES", "PARSE-QUAL", "PARSE-QUALS2", "FORMAT-1", "QUAL"], drivers=["pairs"]),
+    "C19": dict(suites=["VALUES", "PARSE-QUAL", "PARSE-QUALS2", "PARSE-UPKEYS", "FORMAT-1", "QUAL"], drivers=["pairs"]),
 }
 
 ASSUMPTIONS_COMMON = [
